@@ -33,9 +33,9 @@ CHECKS = {
    text="NewElection succeeds iff the statement's predicate holds; a rejection is a *ValidationError naming an offending field, and the provider is not contacted (call-counting provider)."),
  "C17": dict(cat="exploration", tech="exhaustive enumeration (backoff lattice, all retry outcome/cancellation sequences and breaker sequences in virtual-time bubbles against reference models) + deviation-bounded exploration of election scenarios for the acquisition rounds", ref="DESIGN §5 C17",
    note="Backoff lattice restricted to Jitter in [0,1], Multiplier>=1, MaxBackoff<=100y; retry sequences <=5, breaker sequences of length 6; rounds observed in 2-3 instance scenarios with <= d deviations. The random source is owned through the overlay shim.",
-   text="CalculateBackoff within the jitter band and non-negative for all lattice points and attempts up to MaxInt; RetryWithBackoff's invocation instants and result equal the reference timeline for every outcome sequence, MaxAttempts, breaker and cancellation point; CircuitBreaker equals the reference FSM on every sequence; every acquisition round in every explored execution waits exactly 10ms+r*90ms, makes <=4 attempts, and waits the computed backoff."),
+   text="CalculateBackoff within the jitter band and non-negative for all lattice points and attempts up to MaxInt; RetryWithBackoff's invocation instants and result equal the reference timeline for every outcome sequence, MaxAttempts, breaker and cancellation point; CircuitBreaker equals the reference FSM on every sequence; a context cancelled inside the k-th invocation never leads to another invocation (zero-backoff cases, where Go resolves the two ready select cases at random, are executed 64 times each); every acquisition round in every explored execution waits exactly 10ms+r*90ms, makes <=4 attempts, and waits the computed backoff."),
  "C12": dict(cat="model_checking", tech="reference-model conformance: every health-result sequence up to a length bound executed on the real election in virtual time and compared tick by tick with a reference counter", ref="DESIGN §5 C12",
-   note="Sequences over {ok,bad,slow} of length <=6 (quick) / <=7 (thorough) x thresholds {0,1,2,3,4}; one instance; K1 timing; store fault-free; a slow check returns false at its deadline.",
+   note="Sequences over {ok,bad,slow} of length <=6 (quick) / <=7 (thorough) x thresholds {0,1,2,3,4}; one instance; K1 timing; a slow check returns false at its deadline. Besides the fault-free runs, sequences up to length 4/5 are run with one transient heartbeat-refresh failure injected at every refresh in turn (d=1) and with a Stop/Start restart after every tick.",
    text="The reference model (consecutive-unhealthy counter of the current term) and the implementation agree on every tick of every sequence: demotion by the health mechanism exactly when the count reaches the threshold, never earlier, OnDemote ran, each Check context expires within 100ms, the instance continues as follower and is re-elected; counts restart on healthy results and on new terms (runs continue over up to three terms)."),
  "C03": dict(cat="fault_enumeration", tech="exhaustive enumeration of fault position x fault kind x timing configuration, each combined with deviation-bounded exploration of latencies/placement on the real code in virtual time; exact virtual-time oracle", ref="DESIGN §5 C03",
    note="Fault begins at heartbeat attempt 1..5; nine fault kinds; K1,K2,K3 (K3 exercises the H/2 time-out); d<=1 quick (K3: default schedule), d<=2 thorough; single leader; the reference store returns the real NATS error values so the string classification is exercised as in production.",
@@ -45,7 +45,7 @@ CHECKS = {
    text="Whenever ValidateToken / ValidateTokenOrDemote returns true, a validation read applied during the call saw a live record whose JSON id is the caller and whose token is the token the caller held at the call; read errors, hangs past the deadline, cancelled contexts and every malformed shape give false; after a false ValidateTokenOrDemote the instance no longer leads and OnDemote has run if it led at the call; no payload crashes, spins or wedges the instance."),
  "C06": dict(cat="fault_enumeration", tech="enumeration of leader-removal points (script item moved to every choice point), watch-event loss subsets and transient candidate faults, on the real code in virtual time; exact vacancy instants from the reference store log", ref="DESIGN §5 C06",
    note="N in {2,3}; K1,K2; removal by stop(+/-DeleteKey), crash, permanent partition, outside delete; presets deliver-all/drop-all plus per-event drops up to d; candidate Watch/Get/Create failures up to d consecutive; the bound is 600ms plus latencies actually injected into the candidates' operations (an upper bound).",
-   text="Every vacancy instant (tombstone applied or write time + TTL) during which a started, non-stopped, connected instance exists is followed by an acquisition within 600ms + injected latency, also when no watch notification is delivered, after Watch/Get/Create failures, and after the candidate's watch was lost; a run never ends with an older vacancy."),
+   text="Every vacancy instant (tombstone applied or write time + TTL) during which a started, non-stopped, connected instance exists is followed by an acquisition within 600ms + injected latency, also when no watch notification is delivered, after Watch/Get/Create failures, after a temporary outage of the candidate (bound restarts at the recovery) and after the candidate's watch was lost; a run never ends with an older vacancy."),
  "C10": dict(cat="exploration", tech="exhaustive enumeration of the priority/flag assignment lattice x start orders, each combined with deviation-bounded exploration of the takeover's Get/Update against the incumbent's heartbeat on the real code", ref="DESIGN §5 C10",
    note="Priorities {0,1,2}, takeover on/off (valid combinations), 2 and 3 instances (one 4-instance scenario in the thorough tier; 5 instances not run), 2-3 start orders; safety under latencies < H/2 with d<=1 (quick) / 2 (thorough); promptness under latencies <= H/10 with the challenger starting 5ms before the incumbent's heartbeat.",
    text="Every replacement of a live foreign record in every explored execution is by a takeover-enabled instance whose priority is strictly greater than the priority stored in the replaced record; in the promptness scenarios the highest-priority takeover-enabled instance holds the record and claims within 3H (+ injected latency) of its Start, the deposed leader stops claiming within H+2T, and at the end of the run the only claimant has the highest priority."),
@@ -54,7 +54,7 @@ CHECKS = {
    text="No explored execution kills the worker, storms the store without virtual time advancing, leaves a stuck goroutine, blocks Status() or grows goroutines without bound; every replacement of a live foreign record is a legitimate preemption of a parseable record; every promotion follows an acquisition write of the claimer; a leader whose record was rewritten or deleted is demoted within H+2T."),
  "C14": dict(cat="model_checking", tech="exhaustive enumeration of operation sequences up to a depth, each replayed through the real adapter on an embedded nats-server in lock-step with the reference store (model conformance)", ref="DESIGN §5 C14",
    note="Alphabet of 11 operations (three value shapes, four revision choices) up to depth 4 (quick) / 5 (thorough); expiry sequences with one WaitExpiry up to depth 3/4 (real time, MaxAge 150ms; an expiry the server has not performed in time makes the sequence inconclusive, never an alarm); watchers at every prefix position of all sequences up to depth 3/4, two consumer styles; buckets with History 64 so that the server never drops a superseded revision before delivering it; one writer per bucket.",
-   text="Adapter and reference model agree on outcome, revision, value and error text at every step of every sequence; Create succeeds exactly without a live value (also after delete/expiry), Update exactly on the latest revision, revisions strictly increase; every watcher receives exactly the model's event list (initial value, nil marker, each later change once, in order, deletions empty) through one stable channel also when Updates() is called before every receive, and no adapter goroutine survives Stop. This is what binds the store used by all other checks to the real server."),
+   text="Adapter and reference model agree on outcome, revision, value and error text at every step of every sequence; Create succeeds exactly without a live value (also after delete/expiry), Update exactly on the latest revision, revisions strictly increase; every watcher receives exactly the model's event list (initial value, nil marker, each later change once, in order, deletions empty) through one stable channel also when Updates() is called before every receive, and no adapter goroutine survives Stop - also for a consumer that obtained the channel, never read and stopped. This is what binds the store used by all other checks to the real server."),
  "C11": dict(cat="fault_enumeration", tech="exhaustive enumeration of connection-notification sequences x grace x ownership change x partition x stop, each with deviation-bounded placement of every notification on the real code in virtual time (serial dispatcher as in nats.go); exact virtual-time oracle", ref="DESIGN §5 C11",
    note="Sequences over {disconnect, reconnect, closed} of length <=3 (quick) / <=4 (thorough); grace 2H+7ms, 3H+1ms and the 5s default (short sequences); d<=1; one monitored instance; the usurper is an outside writer. Interleavings of the dispatcher, the timer goroutine and the verification goroutine inside one virtual instant are only explored in fine-mode windows.",
    text="With a fault-free store a timer-step demotion happens only at exactly latest-disconnect + grace and only if no reconnect followed; when the grace period of a leading, still disconnected (or closed) instance elapses it is demoted at that instant and OnDemote runs; after a reconnect the instance keeps leadership iff the verification reads (applied by the harness) show its id and token, and OnDemote runs otherwise; no sequence blocks Status(), leaves a stuck goroutine, spins or kills the worker."),
